@@ -8,39 +8,61 @@ sys.path.insert(0, os.path.dirname(os.path.abspath(__file__)))
 from vcheck import Case
 import tgen
 import c04_util as U
+import c04_extra as X
 
 PROP = "C04"
 LEVEL = "proof"
 GEN_UNITS = []
-COQ_TARGETS = ["Props/C04.vo", "Model/C04Harness.vo", "Model/Harness.vo"]
+COQ_TARGETS = ["Props/C04.vo", "Model/C04Harness.vo", "Model/C04Extra.vo", "Model/Harness.vo"]
 THEOREM_FILES = ["Props/C04.v"]
 COQ_IMPORTS = ("From Coq Require Import List ZArith Bool.\n"
-               "From PV Require Import Base.Index Np.Array Model.Sparse Model.Harness Model.C04Model Model.C04Harness.\n")
+               "From PV Require Import Base.Index Np.Array Model.Sparse Model.Harness Model.C04Model Model.C04Harness Model.C04Extra.\n")
 RULE = ("a case is a HISTORY of 1-12 reads/writes applied to a dense and a sparse tensor from the same start state "
         "(empty, dense random, sparse with random stored order); after every step the returned value and the full raw state "
         "(shape,data | shape,subs,vals) are compared with the Coq model. Keys: full subscripts (negative ints), subscript arrays "
         "(duplicates), linear int/list/slice, regions of ints/slices(open, closed, stepped, negative)/index lists; right-hand sides: "
-        "scalar, 0, value arrays mixing 0 and non-0, exactly shaped arrays/tensors; growth of extent and order. Separate short streams "
-        "hit the input classes of the open findings. non-trivial = at least one write and one nonzero somewhere; distinct = distinct history")
+        "scalar, 0, value arrays mixing 0 and non-0, exactly shaped arrays/tensors; growth of extent and order. The input classes of "
+        "the REPAIRED findings (A-13, A-14, A-15, A-17, C04-N01..N03, N05..N07) are part of the ordinary streams, get a dedicated "
+        "stream each and their exact former witnesses are replayed as ordinary cases (a regression is a violation); only the classes "
+        "of the OPEN findings (A-16, C04-N04; C04-N08/N09 on sptenmat) are kept out of the unattributed streams. Extra streams: "
+        "np_adv (one read or scalar write through a key with index lists on a dense tensor: numpy's zipped selection or the outer "
+        "product, nothing else), tenmat_rw and sptenmat_set (histories on a matricised tensor: 2-way array of fixed shape; "
+        "out-of-range requests must raise). non-trivial = at least one write and one nonzero somewhere (np_adv: key in the A-16 "
+        "class); distinct = distinct history")
 CORRESPONDENCE_ONLY = [
-    "sptensor region read (subdims + tt_renumber, model sp_region_get): proved to hold the right value at the renumbered subscript of "
-    "every region position; that the returned sptensor is itself well-formed / its stored order is compared raw in every history only",
-    "sparse region writes: the model's decidable side conditions (region positions pairwise distinct, padded old subscripts inside "
-    "the grown shape) are proved never to fail for subscript-array writes only; for region keys they are exercised by the histories",
-    "A-16 class (two index lists / list and integer around a slice): numpy advanced-indexing meaning of dense keys is not modelled",
-    "rejection of inadmissible requests (only dense linear assignment at or beyond prod(shape) is generated, A-17)",
+    "tenmat.__getitem__/__setitem__ and sptenmat.__setitem__ (executable specification = the C04 dense/sparse step on a 2-way array of "
+    "fixed shape, Model/C04Extra.v; no separate theorem: the step functions are the ones of the refinement theorems)",
+    "dense keys of the A-16 class with a VALUE-ARRAY right-hand side (numpy broadcasting of the value against the zipped selection is "
+    "not modelled; reads and scalar writes are: np_adv_get / np_adv_set_scalar)",
+    "C04-N04 class (sparse tensor right-hand side through stepped / negative slices): pyttb's as-is tt_irenumber is not modelled; the "
+    "model is the correct behaviour and the class is attributed to the open finding",
+    "stored order of a sparse state after a write / of the sptensor returned by a region read: compared raw in every history, not "
+    "part of any theorem (the theorems quantify over every stored order)",
+    "rejection of inadmissible requests (dense linear assignment at or beyond prod(shape), out-of-range (sp)tenmat subscripts)",
 ]
 ASSUMPTIONS = [
     "resolve_get/resolve_set (Python slice.indices semantics, negative indices, F-order linear indices, Cartesian regions) are the "
     "meaning of a key; validated against pyttb/numpy on every history, not proved against CPython",
-    "right-hand sides are scalars or exactly shaped (one value per addressed position); numpy broadcasting of other shapes, boolean "
-    "masks, tenmat/sptenmat assignment are outside the theorem",
-    "sptensor has no linear assignment (documented): such operations are inadmissible for the sparse class",
+    "right-hand sides are scalars or exactly shaped (one value per addressed position); numpy broadcasting of other shapes and boolean "
+    "masks are outside the theorem",
+    "sptensor has no linear assignment (documented): such operations are inadmissible for the sparse class (sparse_op_ok)",
+    "region writes on the sparse side: an index list inside a key does not repeat an index (elem_nodup; a repeated index addresses a "
+    "position twice, sptensor has no defined meaning for it)",
+    "np_adv_positions (Model/C04Extra.v) as the meaning numpy gives to a key with index lists: validated against pyttb/numpy on the "
+    "np_adv stream, not proved against numpy's C code",
 ]
 EXPLANATION = ("Refinement: the dense and the sparse executable model each simulate the abstract array (shape, f) step by step "
-               "(theorems for all states/ops); the models are tied to pyttb by histories compared state-by-state.")
+               "(theorems for all states/ops; on the sparse side in total form: specification and model accept together); the models "
+               "are tied to pyttb by histories compared state-by-state; failing histories are shrunk to a minimal prefix, minimal "
+               "operation set and minimal keys.")
 
-TRIGGERS = {fid: U.make_trigger(fid) for fid in U.OPTRIG}
+def _hist_trigger(fid):
+    t = U.make_trigger(fid)
+    return lambda case: case.op == "history" and t(case)
+
+
+TRIGGERS = {fid: _hist_trigger(fid) for fid in U.OPTRIG}
+TRIGGERS.update(X.TRIGGERS_EXTRA)
 
 
 # ------------------------------------------------------------------------------------------------
@@ -363,17 +385,17 @@ def defect_case(rng, fid):
                 continue
             op = ["set", ["region", es], ["values", [_val(rng, 0.3) for _ in asg]]]
             ops = [pre, op, ["get", ["linslice", None, None, None]]]
-            if U.op_triggers(st1, op, classes) == ["C04-N06"]:
+            if "C04-N06" in U.class_hits(st1, op, classes) and not U.op_triggers(st1, op, classes):
                 return Case("history", {"start": start, "ops": ops, "classes": classes}, True, {"profile": profile})
             continue
         elif fid == "A-17":
             op = ["set", ["lin", cells + rng.choice([0, 0, 1, 3])], ["scalar", _val(rng)]]
         if op is None:
             continue
-        trg = U.op_triggers(st, op, classes)
+        trg = U.op_triggers(st, op, classes)          # open findings only
         if fid == "A-17":
             return Case("history", {"start": start, "ops": [op], "classes": classes, "malformed": True}, True, {"profile": profile})
-        if fid not in trg or any(t != fid for t in trg):
+        if fid not in U.class_hits(st, op, classes) or any(t != fid for t in trg):
             continue
         try:
             st2, _ = U.spec_step(st, op)
@@ -403,7 +425,10 @@ def gen_cases(rng, tier):
         c = gen_history(rng, ["sparse"], "joint", rng.randint(1, 12))
         if c:
             cases.append(c)
-    for fid in U.OPTRIG:
+    cases.extend(X.gen_cases_extra(rng, tier, _gen_slice, _val))
+    for fid, a in REGRESSION_ARGS.items():
+        cases.append(Case("history", copy.deepcopy(a), True, {"profile": "regression:" + fid}))
+    for fid in U.ALLCLASS:          # input classes of the open AND of the repaired findings (regression streams)
         for _ in range(ndef):
             c = defect_case(rng, fid)
             if c:
@@ -485,6 +510,8 @@ def run_class(ttb, np, cls, args):
 
 
 def run_impl(c):
+    if c.op in X.OPS:
+        return X.run_extra(c)
     import numpy as np
     import pyttb as ttb
     return {cls: run_class(ttb, np, cls, c.args) for cls in c.args["classes"]}
@@ -506,6 +533,8 @@ def _g_sparse_state(s):
 
 
 def coq_check(c, o):
+    if c.op in X.OPS:
+        return X.check_extra(c, o)
     a = c.args
     parts = []
     for cls in a["classes"]:
@@ -663,7 +692,8 @@ def shrink(args, fail):
             cand = dict(cur, start={"shape": list(den[0]), "data": data, "subs": subs, "vals": vals}, ops=[cur["ops"][-1]])
             ff = first_failure(cand, {cls: run_class(ttb, np, cls, cand)}) if _all_admissible(cand) else None
             if ff is not None:
-                return cand, ff
+                cand = shrink_keys(ttb, np, cls, cand)
+                return cand, first_failure(cand, {cls: run_class(ttb, np, cls, cand)}) or ff
     changed = True
     while changed and len(cur["ops"]) > 1:
         changed = False
@@ -678,12 +708,106 @@ def shrink(args, fail):
                 cur = cand
                 changed = True
                 break
+    cur = shrink_keys(ttb, np, cls, cur)
     ob = {cls: run_class(ttb, np, cls, cur)}
     ff = first_failure(cur, ob)
     return cur, ff
 
 
+def _simpler_elems(e):
+    """strictly simpler variants of one region element (same kind of selection, fewer features)"""
+    out = []
+    if e[0] == "s":
+        _, a_, b_, c_ = e
+        if c_ is not None:
+            out.append(["s", a_, b_, None])
+        if a_ is not None:
+            out.append(["s", None, b_, c_])
+        if b_ is not None:
+            out.append(["s", a_, None, c_])
+        if a_ is not None and a_ < 0:
+            out.append(["s", 0, b_, c_])
+        out.append(["i", 0])
+    elif e[0] == "l":
+        if len(e[1]) > 1:
+            out.extend(["l", e[1][:k] + e[1][k + 1:]] for k in range(len(e[1])))
+        out.append(["i", e[1][0]])
+    elif e[0] == "i" and e[1] != 0:
+        out.append(["i", 0])
+        if e[1] < 0:
+            out.append(["i", -1])
+    return [x for x in out if x != e]
+
+
+def _simpler_ops(st, op):
+    """candidate replacements of one operation by one with a simpler key / right-hand side (admissibility is re-checked by the caller)"""
+    key = op[1]
+    keys = []
+    if key[0] == "region":
+        for k, e in enumerate(key[1]):
+            keys.extend(["region", key[1][:k] + [x] + key[1][k + 1:]] for x in _simpler_elems(e))
+    elif key[0] == "subs" and len(key[1]) > 1:
+        keys.extend(["subs", key[1][:k] + key[1][k + 1:]] for k in range(len(key[1])))
+    elif key[0] == "linlist" and len(key[1]) > 1:
+        keys.extend(["linlist", key[1][:k] + key[1][k + 1:]] for k in range(len(key[1])))
+    elif key[0] == "linslice":
+        keys.extend(["linslice"] + x[1:] for x in _simpler_elems(["s"] + key[1:]) if x[0] == "s")
+    elif key[0] == "lin" and key[1] != 0:
+        keys.append(["lin", 0])
+    out = []
+    if op[0] == "get":
+        return [["get", k2] for k2 in keys]
+    rhs = op[2]
+    if rhs[0] == "values":
+        nz = [v for v in rhs[1] if v != 0]
+        for v in ([nz[0]] if nz else []) + ([0] if 0 in rhs[1] else []):
+            out.append(["set", key, ["scalar", v]])
+    for k2 in keys:
+        if rhs[0] == "scalar":
+            out.append(["set", k2, rhs])
+            continue
+        try:                                  # one value per addressed position: cut / pad the value list
+            n2 = len(U.resolve_set(st[0], k2, ["scalar", 1])[1])
+        except U.Inadmissible:
+            continue
+        vs = (list(rhs[1]) + [rhs[1][-1]] * n2)[:n2]
+        if key[0] in ("subs", "linlist") and len(k2[1]) == len(key[1]) - 1:      # drop the value of the dropped row
+            j = next(i for i in range(len(key[1])) if key[1][:i] + key[1][i + 1:] == k2[1])
+            vs = rhs[1][:j] + rhs[1][j + 1:]
+        out.append(["set", k2, ["values", vs]])
+    return out
+
+
+def shrink_keys(ttb, np, cls, cur, budget=80):
+    """greedy: replace keys / right-hand sides by simpler ones while the LAST step still fails (pyttb is re-run each time)"""
+    changed = True
+    while changed and budget > 0:
+        changed = False
+        sts = [st for st, _ in U._walk(cur)]
+        for k in range(len(cur["ops"]) - 1, -1, -1):
+            for op2 in _simpler_ops(sts[k], cur["ops"][k]):
+                if budget <= 0:
+                    break
+                budget -= 1
+                cand = dict(cur, ops=cur["ops"][:k] + [op2] + cur["ops"][k + 1:])
+                try:
+                    if not _all_admissible(cand):
+                        continue
+                    ff = first_failure(cand, {cls: run_class(ttb, np, cls, cand)})
+                except Exception:   # noqa: BLE001
+                    ff = None
+                if ff is not None and ff[1] == len(cand["ops"]) - 1:
+                    cur = cand
+                    changed = True
+                    break
+            if changed:
+                break
+    return cur
+
+
 def oracle(c, o):
+    if c.op in X.OPS:
+        return X.oracle_extra(c, o)
     fail = first_failure(c.args, o)
     if fail is None:
         # the two classes against each other (property: they remain equal)
@@ -709,19 +833,26 @@ def _witness(args):
 
 
 _S23 = {"shape": [2, 3], "data": [2, 0, 0, 1, 3, 0], "subs": [[1, 1], [0, 0], [0, 2]], "vals": [1, 2, 3]}
+# witnesses of the OPEN findings
 WITNESS_ARGS = {
+    "A-16": {"start": _S23, "classes": ["dense"], "ops": [["get", ["region", [["l", [0, 1]], ["l", [0, 2]]]]]]},
+    "C04-N04": {"start": _S23, "classes": ["sparse"],
+                "ops": [["set", ["region", [["i", 0], ["s", 0, 3, 2]]], ["values", [7, 8]]]]},
+}
+WITNESSES = {fid: _witness(a) for fid, a in WITNESS_ARGS.items()}
+WITNESSES.update(X.WITNESSES_EXTRA)
+
+# exact witnesses of the REPAIRED findings: part of every run as ordinary (unattributed) cases, so that a regression is a VIOLATION
+REGRESSION_ARGS = {
     "A-13": {"start": _S23, "classes": ["sparse"],
              "ops": [["set", ["subs", [[0, 0], [1, 1], [1, 2]]], ["values", [4, 0, 7]]]]},
     "C04-N01": {"start": _S23, "classes": ["sparse"], "ops": [["set", ["subs", [[0, 0]]], ["scalar", 0]]]},
     "C04-N02": {"start": _S23, "classes": ["sparse"],
-             "ops": [["set", ["subs", [[1, 0], [1, 0]]], ["values", [5, 7]]], ["get", ["region", [["i", 1], ["i", 0]]]]]},
+                "ops": [["set", ["subs", [[1, 0], [1, 0]]], ["values", [5, 7]]], ["get", ["region", [["i", 1], ["i", 0]]]]]},
     "A-14": {"start": _S23, "classes": ["sparse"], "ops": [["set", ["subs", [[0, 0, 1]]], ["scalar", 3]]]},
     "A-15": {"start": {"shape": [1, 3], "data": [1, 2, 3], "subs": [[0, 0], [0, 1], [0, 2]], "vals": [1, 2, 3]},
              "classes": ["dense"], "ops": [["set", ["region", [["s", None, None, None], ["i", 1]]], ["scalar", 9]]]},
-    "A-16": {"start": _S23, "classes": ["dense"], "ops": [["get", ["region", [["l", [0, 1]], ["l", [0, 2]]]]]]},
     "C04-N03": {"start": _S23, "classes": ["dense"], "ops": [["set", ["subs", [[1, 0]]], ["values", [5]]]]},
-    "C04-N04": {"start": _S23, "classes": ["sparse"],
-                "ops": [["set", ["region", [["i", 0], ["s", 0, 3, 2]]], ["values", [7, 8]]]]},
     "C04-N05": {"start": _S23, "classes": ["sparse"],
                 "ops": [["set", ["region", [["s", 0, 2, None], ["i", 0], ["i", 1]]], ["values", [7, 8]]],
                         ["get", ["region", [["i", 0], ["i", 0], ["i", 0]]]]]},
@@ -733,4 +864,3 @@ WITNESS_ARGS = {
                 "ops": [["set", ["region", [["l", [0, 1, 2]], ["s", None, None, None]]], ["values", [7, 0, 0, 8, 9, 0]]]]},
     "A-17": {"start": _S23, "classes": ["dense"], "malformed": True, "ops": [["set", ["lin", 6], ["scalar", 9]]]},
 }
-WITNESSES = {fid: _witness(a) for fid, a in WITNESS_ARGS.items()}
